@@ -17,17 +17,19 @@ package http_api
 //@ pred mServerReq(req *http.Request) := req != nil && req.URL != nil && req.Body != nil
 
 //@ func NewReqParams(req *http.Request) (*ReqParams, error)
-//@   props C15 C14 C06
+//@   props C15 C14 C06 C10
 //@   requires[server-request] mServerReq(req)
 //@   ensures[ok] result1 == nil ==> mParamsOK(result0) && fresh(result0)
 //@   ensures[failed] result1 != nil ==> result0 == nil
-//@   modifies mRP, mRPErr
+//@   modifies mRP, mRPErr, jReqParams
 //@   onreturn mRP := result0
 //@   onreturn mRPErr := result1
+//@   onreturn jReqParams := result0
+//@   onreturn jReqErr := result1
 //@   nochan
 
 //@ func (r *ReqParams) Get(key string) (string, error)
-//@   props C15 C14 C06
+//@   props C15 C14 C06 C10
 //@   requires[parsed] mParamsOK(r)
 //@   ensures[present] has(r.Values, key) ==> result1 == nil && result0 == r.Values[key][0]
 //@   ensures[absent] !has(r.Values, key) ==> result1 != nil && result0 == ""
@@ -35,7 +37,7 @@ package http_api
 //@   nochan
 
 //@ func (r *ReqParams) GetAll(key string) ([]string, error)
-//@   props C15
+//@   props C15 C10
 //@   requires r != nil
 //@   ensures[present] has(r.Values, key) ==> result1 == nil && result0 == r.Values[key]
 //@   ensures[absent] !has(r.Values, key) ==> result1 != nil && len(result0) == 0
@@ -44,11 +46,17 @@ package http_api
 
 // Both names present and valid, or an error (whose text names the first problem); never touches the registry.
 //@ func GetTopicChannelArgs(rp getter) (string, string, error)
-//@   props C15 C14 C06
+//@   props C15 C14 C06 C10
 //@   requires[params] dyntype(rp) == typetag("*ReqParams") && mParamsOK(unbox(rp, "*ReqParams"))
 //@   ensures[ok] result2 == nil <==> (mHasArg(unbox(rp, "*ReqParams"), "topic") && protocol.validName(mArg(unbox(rp, "*ReqParams"), "topic")) &&
 //@        mHasArg(unbox(rp, "*ReqParams"), "channel") && protocol.validName(mArg(unbox(rp, "*ReqParams"), "channel")))
 //@   ensures[values] result2 == nil ==> result0 == mArg(unbox(rp, "*ReqParams"), "topic") && result1 == mArg(unbox(rp, "*ReqParams"), "channel")
 //@   ensures[error-empty] result2 != nil ==> result0 == "" && result1 == ""
+//   the validation table with the documented texts, first failure wins (area J)
+//@   ensures[missing-topic] !has(jRP(rp).Values, "topic") ==> jErrIs(result2, "MISSING_ARG_TOPIC")
+//@   ensures[invalid-topic] has(jRP(rp).Values, "topic") && !validName(jRP(rp).Values["topic"][0]) ==> jErrIs(result2, "INVALID_ARG_TOPIC")
+//@   ensures[missing-channel] jTopicArgOK(jRP(rp).Values) && !has(jRP(rp).Values, "channel") ==> jErrIs(result2, "MISSING_ARG_CHANNEL")
+//@   ensures[invalid-channel] jTopicArgOK(jRP(rp).Values) && has(jRP(rp).Values, "channel") && !validName(jRP(rp).Values["channel"][0]) ==> jErrIs(result2, "INVALID_ARG_CHANNEL")
+//@   ensures[accepted] jTopicArgOK(jRP(rp).Values) && jChannelArgOK(jRP(rp).Values) ==> result2 == nil && result0 == jRP(rp).Values["topic"][0] && result1 == jRP(rp).Values["channel"][0]
 //@   modifies
 //@   nochan
